@@ -142,6 +142,44 @@ class ModuleRef:
         self.mi = mi
 
 
+_LOCALS_CACHE: Dict[int, frozenset] = {}
+
+
+def _local_names(fn) -> frozenset:
+    r = _LOCALS_CACHE.get(id(fn))
+    if r is None:
+        names, declared = set(), set()
+        stack = list(fn.body)
+        while stack:
+            n = stack.pop()
+            if isinstance(n, (ast.FunctionDef, ast.AsyncFunctionDef, ast.ClassDef)):
+                names.add(n.name)
+                continue
+            if isinstance(n, ast.Lambda):
+                continue
+            if isinstance(n, (ast.Global, ast.Nonlocal)):
+                declared |= set(n.names)
+            if isinstance(n, ast.Name) and isinstance(n.ctx, ast.Store):
+                names.add(n.id)
+            if isinstance(n, (ast.ListComp, ast.SetComp, ast.GeneratorExp, ast.DictComp)):
+                # the targets of a comprehension live in its own scope
+                stack.extend([n.key, n.value] if isinstance(n, ast.DictComp) else [n.elt])
+                for g in n.generators:
+                    stack.append(g.iter)
+                    stack.extend(g.ifs)
+                continue
+            stack.extend(ast.iter_child_nodes(n))
+        r = _LOCALS_CACHE[id(fn)] = frozenset(names - declared)
+    return r
+
+
+def _concrete_number(x) -> bool:
+    import numpy as _np
+    if isinstance(x, (bool, int, float, complex, _np.generic)):
+        return True
+    return isinstance(x, _np.ndarray) and x.dtype != object
+
+
 class Closure:
     def __init__(self, fn, module: ModuleInfo, cls: Optional[ClassInfo] = None, env: Optional['Env'] = None):
         self.fn = fn
@@ -408,6 +446,7 @@ class Interp:
             return TOP
         try:
             env = Env(clo.module, clo.cls, clo.env)
+            env.fn = fn
             if isinstance(fn, ast.Lambda):
                 self._bind_args(fn.args, args, kwargs, env, fn)
                 return self.ev(fn.body, env)
@@ -711,6 +750,9 @@ class Interp:
                     obj.pqv_setattr(t.attr, v)
                 except AttributeError:
                     raise Unsupported(t, f'attribute store {t.attr} on {type(obj).__name__}')
+            elif obj is not TOP:
+                # an effect on a value the analysis tracks but cannot update: never dropped silently
+                raise Unsupported(t, f'attribute store {t.attr} on {type(obj).__name__}')
         elif isinstance(t, ast.Starred):
             self.assign(t.value, v, env)
         else:
@@ -744,7 +786,11 @@ class Interp:
             return f(a, b)
         except ZeroDivisionError:
             raise PathRaise('ZeroDivisionError', node)
-        except (TypeError, ValueError, OverflowError):
+        except (TypeError, ValueError, OverflowError) as e:
+            # both operands are concrete Python / NumPy numbers (no abstract element anywhere): the exception is what the
+            # program does
+            if _concrete_number(a) and _concrete_number(b):
+                raise PathRaise(type(e).__name__, node)
             return TOP
 
     def ev(self, node: Optional[ast.AST], env: Env):
@@ -798,6 +844,10 @@ class Interp:
                        'filter', 'iter', 'next', 'ValueError', 'TypeError', 'KeyError', 'NotImplementedError',
                        'Exception', 'KeyboardInterrupt', 'IndexError', 'RuntimeError', 'object', 'setattr', 'slice'):
             return Ext('builtins.' + node.id)
+        # a name the function assigns somewhere is local to it: read on a path that has not assigned it, Python raises
+        fn = getattr(env, 'fn', None)
+        if fn is not None and not isinstance(fn, ast.Lambda) and node.id in _local_names(fn):
+            raise PathRaise('UnboundLocalError', node)
         raise Unsupported(node, f'unbound name {node.id}')
 
     def _ev_Tuple(self, node, env):
